@@ -2671,7 +2671,7 @@ def SIR_heterogeneous_meanfield_from_graph(G, tau, gamma,  initial_infecteds=Non
                                                 rho=rho, SIR=True)
     
     return SIR_heterogeneous_meanfield(Sk0, Ik0, Rk0, tau, gamma, tmin, tmax, 
-                                        tcount, return_full_data=False)
+                                        tcount, return_full_data=return_full_data)
 
 
 #######      HETEROGENEOUS PAIRWISE
